@@ -43,9 +43,12 @@ open Pdt Pdt.Reader Pdt.Represent Pdt.Blocks Pdt.Grid
   `match` versus `search` patterns), so equivalent rewrites (`"**" + name`, `re.match(pattern, name)`, `ws.values`,
   helper generators, swapped if/else arms) raise no alarm. -/
 
-/-- the style loop assigns `font`, `fill`, `alignment` — never a value; nothing in the module assigns `.value` -/
+/-- every attribute the Excel writer module assigns on an object (the style loop's `cell.font = …`, in whichever
+    function it lives) is a style attribute — `font`, `fill` or `alignment` — and nothing in the module assigns
+    `.value` / `._value` of anything -/
 theorem style_writes_pinned :
-    Gen.excelStyleWrites = ["alignment", "fill", "font"] ∧ Gen.excelValueWrites = [] := by decide
+    Gen.excelStyleWrites.all (fun a => ["alignment", "fill", "font"].contains a) = true ∧
+    Gen.excelValueWrites = [] := by decide
 
 theorem represent_consts_pinned : Gen.sealant = "-".toList ∧ Gen.naRepDefault = "-".toList := by decide
 
